@@ -135,6 +135,9 @@ impl OpenEventIndex {
         file: &mut File,
         index: &BTreeMap<Uuid, u64>,
     ) -> Result<(Mphf<Uuid>, u64), EventIndexError> {
+        #[cfg(feature = "verif-hooks")]
+        crate::verif::pause("index-flush:start");
+
         // Collect all keys from the index.
         let keys: Vec<Uuid> = index.keys().cloned().collect();
         let n = keys.len() as u64;
